@@ -549,4 +549,341 @@ theorem fastDivByDwordCore_spec (W d : Nat) (hd : 0 < d) (hdW : d ≤ 2 ^ (2 * W
         linarith [e3, e4, hq0]
       · simp [hlq, hlen']
 
+theorem pow_W_shift_le (W shift : Nat) (hs : shift + 1 ≤ W) : 2 ^ W * 2 ^ shift ≤ 2 ^ (2 * W - 1) := by
+  rw [← Nat.pow_add]; exact Nat.pow_le_pow_right (by omega) (by omega)
+
+theorem fastDivByDwordInPlace_spec (W rhs shift : Nat) (ws : List Nat) (h : IsWords W ws)
+    (hlen : 2 ≤ ws.length) (hrhs : 0 < rhs) (hs : shift + 1 ≤ W)
+    (hd1 : 2 ^ (2 * W - 1) ≤ rhs * 2 ^ shift) (hd2 : rhs * 2 ^ shift ≤ 2 ^ (2 * W)) :
+    ∃ qs r, fastDivByDwordInPlace W ws shift (rhs * 2 ^ shift) = .ok (qs, r) ∧
+      val W qs * rhs + r = val W ws ∧ r < rhs ∧ qs.length = ws.length ∧ IsWords W qs := by
+  have hps : 0 < 2 ^ shift := Nat.two_pow_pos shift
+  have hdpos : 0 < rhs * 2 ^ shift := Nat.mul_pos hrhs hps
+  have ⟨s1, s2, s3, s4⟩ := shlInPlace_spec W shift (by omega) ws h
+  have hhi : 2 ^ W * ((shlInPlace W ws shift).2 + 1) ≤ rhs * 2 ^ shift :=
+    Nat.le_trans (Nat.le_trans (Nat.mul_le_mul_left _ s4) (pow_W_shift_le W shift hs)) hd1
+  obtain ⟨qs, r, e, hv, hr, hl, hq⟩ :=
+    fastDivByDwordCore_spec W (rhs * 2 ^ shift) hdpos hd2 _ _ s3 (by omega) hhi
+  rw [s2] at hv hl
+  have ⟨u1, u2⟩ := unshift (val W qs) r (val W ws) rhs shift (by rw [hv, s1]) hr
+  refine ⟨qs, r / 2 ^ shift, ?_, u1, u2, hl, hq⟩
+  simp only [fastDivByDwordInPlace, e, bind, Except.bind, pure, Except.pure]
+
+theorem lz_dword_lt (W rhs : Nat) (hW : 1 ≤ W) (h : 2 ^ W ≤ rhs) : lz (2 * W) rhs + 1 ≤ W := by
+  have hne : rhs ≠ 0 := by
+    have := Nat.two_pow_pos W; omega
+  have := (Nat.le_log2 hne).mpr h
+  simp only [lz, hne, if_false]
+  omega
+
+/-- `div_by_dword_in_place` = exact division of the slice by a divisor in `[2^W, 2^(2W))` -/
+theorem divByDwordInPlace_spec (W rhs : Nat) (hW : 1 ≤ W) (ws : List Nat) (h : IsWords W ws)
+    (hlen : 2 ≤ ws.length) (hge : 2 ^ W ≤ rhs) (hlt : rhs < 2 ^ (2 * W)) :
+    ∃ qs r, divByDwordInPlace W ws rhs = .ok (qs, r) ∧
+      val W qs * rhs + r = val W ws ∧ r < rhs ∧ qs.length = ws.length ∧ IsWords W qs := by
+  have hp : 0 < 2 ^ W := Nat.two_pow_pos W
+  have hrhs : 0 < rhs := Nat.lt_of_lt_of_le hp hge
+  unfold divByDwordInPlace
+  by_cases hpw : isPow2 rhs = true
+  · rw [if_pos hpw]
+    have hk := isPow2_log_lt hpw hlt
+    have e := isPow2_eq hpw
+    have hkW : W ≤ Nat.log2 rhs := by
+      rw [e] at hge
+      exact (Nat.pow_le_pow_iff_right (by omega)).mp hge
+    generalize Nat.log2 rhs = k at *
+    subst e
+    have ⟨a1, a2, a3, a4⟩ := shrInPlaceOneWord_spec W ws h
+    by_cases h0 : k - W = 0
+    · have : k = W := by omega
+      subst this
+      simp only [h0, if_true]
+      exact ⟨_, _, rfl, a1, a4, a2, a3⟩
+    · simp only [h0, if_false]
+      obtain ⟨k', e1, hk', hv, hl, hw⟩ := shrInPlace_spec W (k - W) (by omega) _ a3
+      refine ⟨_, _, rfl, ?_, ?_, by rw [hl, a2], hw⟩
+      all_goals
+        simp only [shrWord_spec W _ (k - W) (by omega), e1]
+        have hq : (shrInPlaceOneWord ws).2 / 2 ^ (k - W) < 2 ^ (W - (k - W)) := by
+          rw [Nat.div_lt_iff_lt_mul (Nat.two_pow_pos _), ← pow_split (by omega)]; exact a4
+        rw [lor_eq_add' _ _ _ hq]
+        have hk2 : 2 ^ k = 2 ^ W * 2 ^ (k - W) := by rw [← Nat.pow_add]; congr 1; omega
+        have hsp : 2 ^ W = 2 ^ (W - (k - W)) * 2 ^ (k - W) := pow_split (by omega)
+        have hdm := Nat.div_add_mod (shrInPlaceOneWord ws).2 (2 ^ (k - W))
+        have hX : 0 < 2 ^ (W - (k - W)) := Nat.two_pow_pos _
+        have hnum : (shrInPlaceOneWord ws).2 % 2 ^ (k - W) * 2 ^ (W - (k - W))
+              + 2 ^ W * (k' * 2 ^ (W - (k - W)) + (shrInPlaceOneWord ws).2 / 2 ^ (k - W))
+            = ((shrInPlaceOneWord ws).2 + 2 ^ W * k') * 2 ^ (W - (k - W)) := by
+          generalize (shrInPlaceOneWord ws).2 / 2 ^ (k - W) = f1 at *
+          generalize (shrInPlaceOneWord ws).2 % 2 ^ (k - W) = f0 at *
+          generalize (shrInPlaceOneWord ws).2 = first at *
+          rw [← hdm, hsp]
+          ring
+        rw [hnum, Nat.mul_div_cancel _ hX]
+      · rw [hk2]
+        generalize (shrInPlaceOneWord ws).2 = first at *
+        generalize val W (shrInPlaceOneWord ws).1 = V1 at *
+        generalize val W (shrInPlace W (shrInPlaceOneWord ws).1 (k - W)).1 = V2 at *
+        have e2 : 2 ^ W * (V2 * 2 ^ (k - W) + k') = 2 ^ W * V1 := by rw [hv]
+        linarith [e2, a1]
+      · rw [hk2]
+        calc (shrInPlaceOneWord ws).2 + 2 ^ W * k' < 2 ^ W + 2 ^ W * k' := by omega
+          _ = 2 ^ W * (k' + 1) := by ring
+          _ ≤ 2 ^ W * 2 ^ (k - W) := Nat.mul_le_mul_left _ hk'
+  · rw [if_neg hpw]
+    have ⟨l1, l2, l3⟩ := lz_spec (bits := 2 * W) (Nat.pos_iff_ne_zero.mp hrhs) hlt
+    have l4 := lz_dword_lt W rhs hW hge
+    have hmod : rhs * 2 ^ lz (2 * W) rhs % 2 ^ (2 * W) = rhs * 2 ^ lz (2 * W) rhs := Nat.mod_eq_of_lt l3
+    obtain ⟨qs, r, e, rest⟩ :=
+      fastDivByDwordInPlace_spec W rhs (lz (2 * W) rhs) ws h hlen hrhs l4 l2 (Nat.le_of_lt l3)
+    refine ⟨qs, r, ?_, rest⟩
+    simp only [hmod, normNew_ok (2 * W) _ l2, bind, Except.bind, e]
+
+theorem div2by2_snd (W d a : Nat) (hn : 2 ^ (2 * W) ≤ 2 * d) (ha : a < 2 ^ (2 * W)) :
+    (div2by2 d a).2 = a % d := by
+  unfold div2by2
+  by_cases h : a < d
+  · simp [h, Nat.mod_eq_of_lt h]
+  · simp only [h, if_false]
+    have h2 : a - d < d := by omega
+    rw [Nat.mod_eq_sub_mod (by omega), Nat.mod_eq_of_lt h2]
+
+theorem dword_lt (W a b : Nat) (ha : a < 2 ^ W) (hb : b < 2 ^ W) : a + 2 ^ W * b < 2 ^ (2 * W) := by
+  rw [two_mul_W]; nlinarith
+
+theorem fastRemDwordPairs_spec (W d : Nat) (hd : 0 < d) (hn : 2 ^ (2 * W) ≤ 2 * d) (n : Nat)
+    (ws : List Nat) (hl : ws.length = 2 * (n + 1)) (h : IsWords W ws) :
+    fastRemDwordPairs W d ws = .ok (val W ws % d) := by
+  induction n generalizing ws with
+  | zero =>
+    rcases ws with _ | ⟨a, _ | ⟨b, _ | ⟨c, t⟩⟩⟩
+    · simp at hl
+    · simp at hl
+    · simp only [fastRemDwordPairs, val_cons, val_nil, Nat.mul_zero, Nat.add_zero]
+      rw [div2by2_snd W d _ hn (dword_lt W a b h.head h.tail.head)]
+    · simp at hl
+  | succ n ih =>
+    rcases ws with _ | ⟨a, _ | ⟨b, _ | ⟨c, t⟩⟩⟩
+    · simp at hl
+    · simp at hl; omega
+    · simp at hl
+    · have e := ih (c :: t) (by simp at hl ⊢; omega) h.tail.tail
+      have hr : val W (c :: t) % d < d := Nat.mod_lt _ hd
+      simp only [fastRemDwordPairs, e, bind, Except.bind, div4by2_ok W d _ _ hr, pure, Except.pure]
+      rw [mod_step]
+      congr 2
+      simp only [val_cons]
+      rw [two_mul_W]; ring
+
+/-- `fast_rem_by_normalized_dword` = remainder of the slice by the normalised double word `d` -/
+theorem fastRemByNormalizedDword_spec (W d : Nat) (hd : 0 < d) (hn : 2 ^ (2 * W) ≤ 2 * d)
+    (ws : List Nat) (h : IsWords W ws) (hlen : 2 ≤ ws.length) :
+    fastRemByNormalizedDword W d ws = .ok (val W ws % d) := by
+  unfold fastRemByNormalizedDword
+  by_cases hpar : ws.length % 2 = 0
+  · rw [if_pos hpar]
+    exact fastRemDwordPairs_spec W d hd hn (ws.length / 2 - 1) ws (by omega) h
+  · rw [if_neg hpar]
+    rcases ws with _ | ⟨x, rest⟩
+    · simp at hlen
+    · have e := fastRemDwordPairs_spec W d hd hn (rest.length / 2 - 1) rest
+        (by simp at hpar hlen; omega) h.tail
+      have hr : val W rest % d < d := Nat.mod_lt _ hd
+      simp only [e, bind, Except.bind, div3by2_ok W d _ _ hr, pure, Except.pure]
+      rw [mod_step]
+      rfl
+
+/-- `rem_by_dword` = remainder of the slice by a divisor in `[2^W, 2^(2W))` -/
+theorem remByDword_spec (W rhs : Nat) (hW : 1 ≤ W) (ws : List Nat) (h : IsWords W ws)
+    (hlen : 2 ≤ ws.length) (hge : 2 ^ W ≤ rhs) (hlt : rhs < 2 ^ (2 * W)) :
+    remByDword W ws rhs = .ok (val W ws % rhs) := by
+  have hp : 0 < 2 ^ W := Nat.two_pow_pos W
+  have hrhs : 0 < rhs := Nat.lt_of_lt_of_le hp hge
+  unfold remByDword
+  by_cases hpw : isPow2 rhs = true
+  · rw [if_pos hpw]
+    have hk := isPow2_log_lt hpw hlt
+    have e := isPow2_eq hpw
+    rcases ws with _ | ⟨w0, _ | ⟨w1, t⟩⟩
+    · simp at hlen
+    · simp at hlen
+    · simp only [val_cons]
+      generalize Nat.log2 rhs = k at *
+      subst e
+      rw [Nat.and_two_pow_sub_one_eq_mod]
+      have : w0 + 2 ^ W * (w1 + 2 ^ W * val W t) = (w0 + 2 ^ W * w1) + 2 ^ (2 * W) * val W t := by
+        rw [two_mul_W]; ring
+      rw [this, word_mod_pow (2 * W) k _ _ (by omega)]
+  · rw [if_neg hpw]
+    have ⟨l1, l2, l3⟩ := lz_spec (bits := 2 * W) (Nat.pos_iff_ne_zero.mp hrhs) hlt
+    have l4 := lz_dword_lt W rhs hW hge
+    have hmod : rhs * 2 ^ lz (2 * W) rhs % 2 ^ (2 * W) = rhs * 2 ^ lz (2 * W) rhs := Nat.mod_eq_of_lt l3
+    have hps : 0 < 2 ^ lz (2 * W) rhs := Nat.two_pow_pos _
+    have hdpos : 0 < rhs * 2 ^ lz (2 * W) rhs := Nat.mul_pos hrhs hps
+    have hn : 2 ^ (2 * W) ≤ 2 * (rhs * 2 ^ lz (2 * W) rhs) := by
+      have : 2 ^ (2 * W) = 2 * 2 ^ (2 * W - 1) := by
+        rw [← Nat.pow_succ']; congr 1; omega
+      omega
+    have e := fastRemByNormalizedDword_spec W _ hdpos hn ws h hlen
+    have hr : val W ws % (rhs * 2 ^ lz (2 * W) rhs) < rhs * 2 ^ lz (2 * W) rhs := Nat.mod_lt _ hdpos
+    have ⟨d1, d2, d3, d4⟩ := shlDword_spec W (val W ws % (rhs * 2 ^ lz (2 * W) rhs)) (lz (2 * W) rhs)
+      (by omega) (Nat.lt_trans hr l3)
+    generalize hsd : shlDword W (val W ws % (rhs * 2 ^ lz (2 * W) rhs)) (lz (2 * W) rhs) = p at d1 d2 d3 d4
+    obtain ⟨a0, a1, a2⟩ := p
+    simp only at d1 d2 d3 d4
+    have hpre : a1 + 2 ^ W * a2 < rhs * 2 ^ lz (2 * W) rhs := by
+      calc a1 + 2 ^ W * a2 < 2 ^ W + 2 ^ W * a2 := by omega
+        _ = 2 ^ W * (a2 + 1) := by ring
+        _ ≤ 2 ^ W * 2 ^ lz (2 * W) rhs := Nat.mul_le_mul_left _ d4
+        _ ≤ 2 ^ (2 * W - 1) := pow_W_shift_le W _ l4
+        _ ≤ _ := l2
+    simp only [hmod, normNew_ok (2 * W) _ l2, bind, Except.bind, e, hsd, div3by2_ok W _ _ _ hpre,
+      pure, Except.pure]
+    have : a0 + 2 ^ W * (a1 + 2 ^ W * a2) = val W ws % (rhs * 2 ^ lz (2 * W) rhs) * 2 ^ lz (2 * W) rhs := by
+      rw [← d1, two_mul_W]; ring
+    rw [this, rem_unshift]
+
+-- ------------------------------------------------------------------ list helpers
+
+theorem getD_eq_of_drop (l : List Nat) (i a : Nat) (t : List Nat) (h : l.drop i = a :: t) :
+    l.getD i 0 = a := by
+  have : l[i]? = some a := by
+    have h2 : (l.drop i)[0]? = l[i + 0]? := List.getElem?_drop
+    rw [h] at h2; simpa using h2.symm
+  simp [List.getD_eq_getElem?_getD, this]
+
+theorem split_last2_getD (l : List Nat) (h : 2 ≤ l.length) :
+    ∃ lo a b, l = lo ++ [a, b] ∧ l.getD (l.length - 2) 0 = a ∧ l.getD (l.length - 1) 0 = b ∧
+      lo.length = l.length - 2 := by
+  obtain ⟨lo, a, b, hdrop, htake, hsplit⟩ := split_last2 l h
+  refine ⟨lo, a, b, hsplit, getD_eq_of_drop l _ a [b] hdrop, ?_, by rw [← htake]; simp⟩
+  have h1 : l.drop (l.length - 1) = [b] := by
+    have : l.length - 1 = (l.length - 2) + 1 := by omega
+    rw [this, ← List.drop_drop, hdrop]; rfl
+  exact getD_eq_of_drop l _ b [] h1
+
+theorem split_last1 (l : List Nat) (h : 1 ≤ l.length) :
+    ∃ lo a, l = lo ++ [a] ∧ l.getD (l.length - 1) 0 = a ∧ l.take (l.length - 1) = lo ∧
+      lo.length = l.length - 1 := by
+  have hd : (l.drop (l.length - 1)).length = 1 := by simp only [List.length_drop]; omega
+  have hs := (List.take_append_drop (l.length - 1) l).symm
+  generalize hdr : l.drop (l.length - 1) = d at hd hs
+  rcases d with _ | ⟨a, _ | ⟨c, t⟩⟩
+  · simp at hd
+  · exact ⟨_, a, hs, getD_eq_of_drop l _ a [] hdr, rfl, by simp⟩
+  · simp at hd
+
+theorem take_drop_val (W : Nat) (l : List Nat) (k : Nat) (hk : k ≤ l.length) :
+    val W l = val W (l.take k) + 2 ^ (W * k) * val W (l.drop k) := by
+  have := val_take_add_drop W l k
+  rw [List.length_take, Nat.min_eq_left hk] at this
+  exact this
+
+-- ------------------------------------------------------------------ cmp_same_len
+
+theorem cmpSameLen_spec (W : Nat) (as bs : List Nat) (hl : as.length = bs.length)
+    (ha : IsWords W as) (hb : IsWords W bs) :
+    cmpSameLen as bs = compare (val W as) (val W bs) := by
+  induction as generalizing bs with
+  | nil =>
+    cases bs with
+    | nil => simp [cmpSameLen]
+    | cons b bs => simp at hl
+  | cons a as ih =>
+    cases bs with
+    | nil => simp at hl
+    | cons b bs =>
+      have e := ih bs (by simpa using hl) ha.tail hb.tail
+      have ha0 := ha.head
+      have hb0 := hb.head
+      simp only [cmpSameLen, e, val_cons]
+      rcases Nat.lt_trichotomy (val W as) (val W bs) with hlt | heq | hgt
+      · rw [Nat.compare_eq_lt.mpr hlt]
+        symm; rw [Nat.compare_eq_lt]
+        have : 2 ^ W * (val W as + 1) ≤ 2 ^ W * val W bs := Nat.mul_le_mul_left _ hlt
+        nlinarith
+      · rw [heq, Nat.compare_eq_eq.mpr rfl]
+        simp only
+        rcases Nat.lt_trichotomy a b with h1 | h1 | h1
+        · rw [Nat.compare_eq_lt.mpr h1]; symm; rw [Nat.compare_eq_lt]; omega
+        · subst h1; simp
+        · rw [Nat.compare_eq_gt.mpr h1]; symm; rw [Nat.compare_eq_gt]; omega
+      · rw [Nat.compare_eq_gt.mpr hgt]
+        symm; rw [Nat.compare_eq_gt]
+        have : 2 ^ W * (val W bs + 1) ≤ 2 ^ W * val W as := Nat.mul_le_mul_left _ hgt
+        nlinarith
+
+-- ------------------------------------------------------------------ sub_mul_word_same_len_in_place
+
+/-- loop invariant in additive form: `cpm + bin = B − 1` (borrow-in), result borrow `bout` -/
+theorem subMulLoop_spec (W mult : Nat) (hm : mult < 2 ^ W) (as bs : List Nat) (cpm bin : Nat)
+    (hl : as.length = bs.length) (ha : IsWords W as) (hb : IsWords W bs)
+    (hc : cpm + bin = 2 ^ W - 1) :
+    let r := subMulLoop W mult as bs cpm
+    ∃ bout, r.2 + bout = 2 ^ W - 1 ∧
+      val W r.1 + mult * val W bs + bin = val W as + bout * 2 ^ (W * as.length) ∧
+      r.1.length = as.length ∧ IsWords W r.1 := by
+  induction as generalizing bs cpm bin with
+  | nil =>
+    cases bs with
+    | nil => exact ⟨bin, by simp [subMulLoop, hc, IsWords.nil]⟩
+    | cons b bs => simp at hl
+  | cons a as ih =>
+    cases bs with
+    | nil => simp at hl
+    | cons b bs =>
+      have hp : 0 < 2 ^ W := Nat.two_pow_pos W
+      have ha0 := ha.head
+      have hb0 := hb.head
+      -- no underflow, and the new carry is a word
+      have hmb : mult * b ≤ (2 ^ W - 1) * (2 ^ W - 1) := Nat.mul_le_mul (by omega) (by omega)
+      have hv : a + cpm + (2 ^ W - 1) * (2 ^ W - 1) - mult * b < 2 ^ W * 2 ^ W := by
+        have : (2 ^ W - 1) * (2 ^ W - 1) + 2 * (2 ^ W - 1) + 1 = 2 ^ W * 2 ^ W := by
+          have : 2 ^ W - 1 + 1 = 2 ^ W := by omega
+          generalize 2 ^ W - 1 = M at *
+          rw [← this]; ring
+        omega
+      have hc1 : (a + cpm + (2 ^ W - 1) * (2 ^ W - 1) - mult * b) / 2 ^ W ≤ 2 ^ W - 1 := by
+        have := (Nat.div_lt_iff_lt_mul hp).mpr hv
+        omega
+      obtain ⟨bout, i1, i2, i3, i4⟩ := ih bs
+        ((a + cpm + (2 ^ W - 1) * (2 ^ W - 1) - mult * b) / 2 ^ W)
+        (2 ^ W - 1 - (a + cpm + (2 ^ W - 1) * (2 ^ W - 1) - mult * b) / 2 ^ W)
+        (by simpa using hl) ha.tail hb.tail (by omega)
+      refine ⟨bout, i1, ?_, by simp [subMulLoop, i3], IsWords.cons (Nat.mod_lt _ hp) i4⟩
+      simp only [subMulLoop, val_cons, List.length_cons]
+      have hP : 2 ^ (W * (as.length + 1)) = 2 ^ (W * as.length) * 2 ^ W := by
+        rw [Nat.mul_add, Nat.mul_one, Nat.pow_add]
+      rw [hP]
+      have hdm := Nat.div_add_mod (a + cpm + (2 ^ W - 1) * (2 ^ W - 1) - mult * b) (2 ^ W)
+      generalize hvv : a + cpm + (2 ^ W - 1) * (2 ^ W - 1) - mult * b = v at *
+      have hv' : v + mult * b = a + cpm + (2 ^ W - 1) * (2 ^ W - 1) := by omega
+      generalize v / 2 ^ W = c1 at *
+      generalize v % 2 ^ W = d0 at *
+      generalize hM : 2 ^ W - 1 = M at *
+      have hB : 2 ^ W = M + 1 := by omega
+      generalize 2 ^ (W * as.length) = P at *
+      generalize val W (subMulLoop W mult as bs c1).1 = V at *
+      have e : (M + 1) * (V + mult * val W bs + (M - c1)) = (M + 1) * (val W as + bout * P) := by rw [i2]
+      have hc1' : c1 + (M - c1) = M := by omega
+      generalize M - c1 = k at *
+      rw [hB] at hdm ⊢
+      nlinarith [e, hdm, hv', hc, hc1']
+
+/-- `sub_mul_word_same_len_in_place`: words − mult·rhs, borrow out -/
+theorem subMulWordSameLen_spec (W mult : Nat) (hm : mult < 2 ^ W) (ws rhs : List Nat)
+    (hl : ws.length = rhs.length) (hw : IsWords W ws) (hr : IsWords W rhs) :
+    let r := subMulWordSameLen W ws mult rhs
+    val W r.1 + mult * val W rhs = val W ws + r.2 * 2 ^ (W * ws.length) ∧
+    r.1.length = ws.length ∧ IsWords W r.1 := by
+  unfold subMulWordSameLen
+  by_cases h0 : mult = 0
+  · simp [h0, hw]
+  · simp only [h0, if_false]
+    obtain ⟨bout, i1, i2, i3, i4⟩ := subMulLoop_spec W mult hm ws rhs (2 ^ W - 1) 0 hl hw hr (by omega)
+    refine ⟨?_, i3, i4⟩
+    have : 2 ^ W - 1 - (subMulLoop W mult ws rhs (2 ^ W - 1)).2 = bout := by omega
+    simp only [this]
+    simpa using i2
+
 end Dashu.Model.Div
